@@ -127,6 +127,29 @@ func hasValidateTag(field reflect.StructField, config *DecodeConfig) bool {
 	return ok
 }
 
+// mayCarryRules reports whether the field carries a validation rule or is of a type
+// that may carry rules inside (a struct, an interface, a container of those): for
+// exported fields the decoder does not walk into (an embedded non-struct type, a type
+// with a customized decoder), which the validator walks all the same.
+func mayCarryRules(field reflect.StructField, config *DecodeConfig) bool {
+	if hasValidateTag(field, config) {
+		return true
+	}
+	t := field.Type
+	for t.Kind() == reflect.Ptr {
+		t = t.Elem()
+	}
+	switch t.Kind() {
+	case reflect.Struct, reflect.Interface:
+		return true
+	case reflect.Slice, reflect.Array:
+		return elemMayCarryRules(t.Elem())
+	case reflect.Map:
+		return elemMayCarryRules(t.Elem()) || elemMayCarryRules(t.Key())
+	}
+	return false
+}
+
 type parentInfos struct {
 	Types    []reflect.Type
 	Indexes  []int
@@ -142,7 +165,7 @@ func getFieldDecoder(pInfo parentInfos, field reflect.StructField, index int, by
 	// 		string
 	// }
 	if field.Type.Kind() != reflect.Struct && field.Anonymous {
-		return nil, hasValidateTag(field, config), nil
+		return nil, field.PkgPath == "" && mayCarryRules(field, config) || hasValidateTag(field, config), nil
 	}
 
 	// JSONName is like 'a.b.c' for 'required validate'
@@ -162,7 +185,7 @@ func getFieldDecoder(pInfo parentInfos, field reflect.StructField, index int, by
 	// customized type decoder has the highest priority
 	if customizedFunc, exist := config.TypeUnmarshalFuncs[field.Type]; exist {
 		dec, err := getCustomizedFieldDecoder(field, index, fieldTagInfos, pInfo.Indexes, customizedFunc, config)
-		return dec, needValidate, err
+		return dec, needValidate || mayCarryRules(field, config), err
 	}
 
 	// slice/array field decoder
